@@ -1,1 +1,3 @@
 pub mod pipeline;
+pub mod cli;
+pub mod lsp;
